@@ -70,7 +70,14 @@ func propC06(a *Analysis, r *Registry) {
 				// loop bound dk <= k-L: however the loop is written, another iteration is run only
 				// while dk <= k-L, and any further condition for going on (the truncation of
 				// negligible terms) does not involve dk
-				ph := X.phiOf[vars["dk"].SingleAtom().ID]
+				// (the counter role may be played by a loop counter offset by one)
+				dkPhis := fc.loopPhis(vars["dk"])
+				if len(dkPhis) != 1 || dkPhis[0].SingleAtom() == nil || X.phiOf[dkPhis[0].SingleAtom().ID] == nil {
+					r.Fail(rB, "stats.(HypergeometicDist).sum/bound", b.pos(fn), "the term counter is not driven by one loop counter")
+					return
+				}
+				dkAtom := dkPhis[0].SingleAtom()
+				ph := X.phiOf[dkAtom.ID]
 				cont := fc.ContinueCond(ph.Block())
 				bound := env.MustParse("dk<=k-maxint(0, d.Draws+d.K-d.N)")
 				past := X.SimplifyUnder(cont, []Assumption{{Cond: bound, True: false}})
@@ -78,7 +85,7 @@ func propC06(a *Analysis, r *Registry) {
 				switch {
 				case !past.Equal(X.S.False()):
 					r.Fail(rB, "stats.(HypergeometicDist).sum/bound", b.pos(fn), "the loop can go on past dk <= k-L: continues while "+clip(cont.String(), 300))
-				case len(FindAtomID(within, vars["dk"].SingleAtom().ID)) > 0:
+				case len(FindAtomID(within, dkAtom.ID)) > 0:
 					r.Fail(rB, "stats.(HypergeometicDist).sum/bound", b.pos(fn), "the loop stops on a further condition on dk besides dk <= k-L: "+clip(within.String(), 300))
 				default:
 					r.OK(rB, "stats.(HypergeometicDist).sum/bound", b.pos(fn), "another term is added only while dk <= k-L (besides the truncation of negligible terms)")
